@@ -112,14 +112,14 @@ def describe_patches(paths, strip=0):
 
 def tags_of(series, upto=None):
     """structural class of a series: the set of deviating template kinds (+ options) it contains"""
-    tags = set()
+    tags = set(getattr(series, 'tags', ()))
     for i, p in enumerate(series):
         if upto is not None and i > upto:
             break
         if p.reverse:
             tags.add('-R')
         if p.strip != 1:
-            tags.add('-p%d' % p.strip)
+            tags.add('dot-slash-names' if p.strip == 'dot' else '-p%d' % p.strip)
         if p.empty:
             tags.add('empty-patch')
         seen = set()
